@@ -10,7 +10,7 @@ ENGINES = {
     "sched": ("vf/sched.py", "stateless deviation-bounded exhaustive schedule exploration of the real implementation on a virtual event loop (iterative context bounding)"),
     "seqbfs": ("vf/seqbfs.py", "explicit-state breadth-first search over operation sequences on the real objects, canonical-state deduplication, reference interpreter as oracle"),
     "frames": ("vf/frames.py", "exhaustive enumeration of small tables x all batch splits on the real streaming dataframe pipeline, pandas as reference model"),
-    "config": ("vf/config.py", "exhaustive enumeration of construction configurations against a reference binding function"),
+    "config": ("vf/props/c19.py", "exhaustive enumeration of construction configurations against a reference binding function"),
 }
 
 # id -> (engine, technique, level text, level note, design ref)
@@ -24,23 +24,23 @@ def claim(pid, engine, technique, text, note, ref):
 
 claim("C14", "sched",
       "bounded exhaustive schedule enumeration (ICB, deviations<=2 quick / <=3 thorough) of the real latest node on a virtual loop",
-      "Every interleaving of arrivals, loop iterations and consumer completions (1-2 bursting producers, 3-5 elements, four consumer kinds) "
+      "Every interleaving of arrivals, loop iterations and consumer completions (1-2 bursting producers, 3-5 elements, four consumer kinds; element values that compare equal, the same object arriving again, None, arrivals around a long idle period; a second latest() pipeline alongside) "
       "within the deviation bound is executed against the real node; subsequence / no-duplicate are checked after every step, newest-delivered after a deterministic closing phase.",
       "virtual event loop (callbacks take zero time), consumer completion is a harness-owned future; bounds: <=5 elements, <=3 deviations",
       "DESIGN.md §3 C14")
 
 claim("C13", "sched",
       "bounded exhaustive schedule enumeration (ICB) of rate_limit / delay on a virtual clock, 0.5 arrival grid",
-      "Every schedule of 1-2 producers (awaiting or bursting), clock ticks on a half-interval grid, loop iterations and consumer completions within the deviation bound is run "
+      "Every schedule of 1-2 producers (awaiting or bursting; also into two upstream streams of one node), clock ticks on a half- or quarter-interval grid (intervals 1, 0.5, '1s', '500ms', '1500ms'), a consumer that rejects one element, loop iterations and consumer completions within the deviation bound is run "
       "against the real nodes; spacing >= interval, arrival order, no loss/duplicate and idle=>immediate are evaluated on virtual delivery times after every step.",
-      "virtual clock (time()/IOLoop.time() rebound; callbacks take zero time); interval 1.0; <=4 elements; deviations <=1 (<=2 on the smallest scenario in thorough)",
+      "virtual clock (time()/IOLoop.time() rebound; callbacks take zero time); <=4 elements; deviations <=1 (<=2 on the smallest scenario in thorough); delay is only held to order and count, as the statement says",
       "DESIGN.md §3 C13")
 
 claim("C08", "sched",
       "bounded exhaustive schedule enumeration (ICB) of timed_window / timed_window_unique / partition(timeout) on a virtual clock",
       "Every schedule of bursting arrivals on a half-interval grid, timer expirations and consumer completions within the deviation bound is run against the real nodes; "
       "window contents are reconstructed from the observation log (no model of the timer needed): conservation, order, size, keep-first/last, deadline incl. blocked time, no spurious batch.",
-      "virtual clock; interval/timeout 1.0; <=4 elements; n in {1,2,3}; deviations <=1 quick, <=2 thorough (sync consumer)",
+      "virtual clock; interval/timeout 1.0, 0.5, '500ms', '1s'; <=4 elements incl. a falsy one; n in {1,2,3}; keys by function and by index; deviations <=1 quick, <=2 thorough (sync consumer)",
       "DESIGN.md §3 C08")
 
 claim("C02", "sched",
@@ -55,7 +55,7 @@ claim("C03", "sched",
       "bounded exhaustive schedule enumeration (ICB): emit completion vs consumer completion, occupancy bounds, liveness after closing",
       "Plain pass-through nodes alone and behind buffer, buffer(n)/zip(maxsize=n)/map_async(n) for n in 1..3, 2- and 3-input zip, awaiting and bursting producers: "
       "(a) evaluated at the action in which an emit awaitable completes, (b) accepted-but-not-handed-on <= n at every step, (c) no pending emit / queued element after all consumers completed.",
-      "asynchronous mode on the virtual loop (threaded mode: see level text of later revisions); n<=3; deviations <=1 quick / <=2 thorough; map_async bound n+1 as pinned by test_map_async",
+      "asynchronous mode on the virtual loop and threaded mode (blocking emit from 1-2 real threads under a baton, the explorer playing the loop thread; a bounded Event.wait expires once); elements with and without checkpoint counters; n<=3; deviations <=1 quick / <=2 thorough; map_async bound n+1 as pinned by test_map_async",
       "DESIGN.md §3 C03")
 
 claim("C04", "sched",
@@ -63,7 +63,7 @@ claim("C04", "sched",
       "For each node that can hold data (buffer, delay, rate_limit, map_async, timed_window(_unique), partition(size/timeout), partition_unique, latest, sliding_window, collect, "
       "zip, combine_latest, zip_latest, direct, map) in front of a gated consumer, every schedule of emits, completions, *failures* of consumers / mapped functions and timers within the "
       "deviation bound is run on the real nodes; at the log position of every release that brings a counter to zero the element must not be held inside the node, must not be in a batch a consumer is still handling, and its processing must not have raised.",
-      "virtual event loop; 2-4 elements; one holding node per scenario (two-node compositions only via C02/C05 shapes); deviations <=1 quick, <=2 thorough",
+      "virtual event loop; 2-4 elements; metadata of one dict, of two dicts of which one has no counter, counters created with initial=1; one or two asynchronous consumers; one holding node per scenario plus pairs of lossless buffering nodes; deviations <=1 quick, <=2 thorough",
       "DESIGN.md §3 C04")
 
 claim("C05", "sched+seqbfs",
@@ -75,7 +75,7 @@ claim("C05", "sched+seqbfs",
 
 claim("C18", "sched",
       "bounded exhaustive enumeration of start/stop histories at every suspension point of the real sources (ICB on a virtual clock)",
-      "from_periodic, from_iterable (iterator) and from_textfile with gated and synchronous consumers: every history of <= L start/stop calls (calls are deviation-free, so start();stop();start() "
+      "from_periodic, from_iterable (iterator), from_textfile and from_q with gated and synchronous consumers (also two consumers, two sources behind one node whose start()/stop() is called, a polled callable that fails once, sources constructed with start=True, lifecycle calls made from another thread): every history of <= L start/stop calls (calls are deviation-free, so start();stop();start() "
       "in one loop turn is covered) placed before the first cycle, during the sleep, during a backpressured emit and between items, interleaved with consumer completions and ticks; "
       "oracle: no two cycles within one interval / no item twice or out of order / none lost, no cycle begins while stopped, next item only after downstream finished, a started source does poll.",
       "virtual loop and clock, sources given the loop explicitly; L<=4 quick / 5 thorough; deviations <=1 (other events)",
@@ -83,15 +83,15 @@ claim("C18", "sched",
 
 claim("C17", "sched",
       "exhaustive enumeration of texts x chunkings x poll placements (explorer over write/tick events) on the real sources",
-      "from_textfile: every text over a tiny alphabet (records may contain single characters of a multi-character delimiter), every composition of it into write chunks, every placement of polls "
+      "from_textfile: every text over a tiny alphabet (records may contain single characters of a multi-character delimiter; delimiters that overlap themselves, regex-special delimiters, other line-boundary characters inside records), every composition of it into write chunks, every placement of polls "
       "between writes, from_end on/off with pre-existing content; emitted records must be a prefix of the complete records of what has been written at every step and equal to them at the end, tail withheld. "
-      "filenames: every creation order x glob answer permutation x poll placement; each path once, sorted per poll.",
+      "filenames: every creation order x glob answer permutation x poll placement, patterns in one directory, across directories and a plain directory path, stop()/start() between polls; each path once, sorted per poll.",
       "in-memory append-only file object (trusted fake) in quick plus a few real temp files; thorough adds byte-level chunkings of real files with a two-byte UTF-8 character; fake directory behind the glob seam; text length <= 6 (quick) / 8 (thorough)",
       "DESIGN.md §3 C17")
 
 claim("C09", "sched",
       "bounded exhaustive schedule enumeration with a crash at every choice point, real from_kafka_batched against an in-memory broker",
-      "Production histories over 1-2 partitions (incl. a partition added with refresh_partitions, pre-existing committed offsets, reset earliest/latest, max_batch_size 1/2/10), "
+      "Production histories over 1-3 partitions (incl. one or two partitions added with refresh_partitions, pre-existing committed offsets, reset earliest/latest/default, a backlog in every partition, keys=True, max_batch_size 1/2/10, a transient committed() failure, a partition whose watermark query fails), "
       "synchronous / buffered / directly connected asynchronous consumers completing in any order; every step: auto-commit off, ranges contiguous, non-overlapping, start at committed/reset position, "
       "<= watermark, <= max_batch_size, commit(o) only for a completely processed batch ending at o-1; after the crash a second life with the same group must redeliver everything not completely processed.",
       "trusted fake broker (commits durable when requested); <=4 messages; deviations <=1; redelivery demanded only when the group has a position and batches completed in order (as the statement allows)",
@@ -99,7 +99,7 @@ claim("C09", "sched",
 
 claim("C20", "sched",
       "bounded exhaustive enumeration of task-completion orders of the real DaskStream nodes against a fake client, local pipeline as reference",
-      "16 one-source and 6 two-source programs over map/starmap/accumulate(3 forms)/zip/union/buffer/partition/sliding_window between scatter() and gather(): every dependency-respecting order of task completions "
+      "34 one-source, 6 two-source and 2 three-source programs over map/starmap/accumulate(all forms, extra and node-only arguments)/zip/union/buffer/partition/sliding_window between scatter() and gather() (incl. a failing task, list elements, two segments in a row): every dependency-respecting order of task completions "
       "interleaved with emits within the deviation bound; the recorder sequence must equal that of the same program built from local nodes and fed the same emits (prefix at every step, equal at the end); "
       "input reference counters must end with the same counts, fire as often, and not earlier relative to deliveries than locally.",
       "trusted fake Dask client (FIFO scatter/gather RPCs, explorer-driven task completion); producers await emit; <=4 elements; deviations <=1 quick / <=2 thorough; local references computed on a real background loop before exploration",
@@ -122,15 +122,15 @@ claim("C10", "seqbfs",
 
 claim("C15", "seqbfs",
       "explicit-state BFS over graph-edit histories on a pool of real nodes, reference graph interpreter over the current edge list as oracle",
-      "17 operations (emits at three sources, connect/disconnect of every edge into a join that keeps the graph free of parallel edges, destroy of join and map, drop-last-reference + gc.collect(), sink.destroy()) "
-      "x 4 join kinds (zip, combine_latest plain / emit_on, union), all histories to depth 5 (6 thorough) with dedup on (edge lists, join state); after every operation links must be mutually consistent, "
+      "19 operations (emits at three sources, connect/disconnect of every edge into a join that keeps the graph free of parallel edges, destroy of join and map, destroy(streams=[one input]), drop-last-reference + gc.collect(), sink.destroy(); a sink nobody references) "
+      "x 5 join kinds (zip, combine_latest plain / emit_on=0 / emit_on=1, union), all histories to depth 6 (7 thorough) with dedup on (edge lists, join state); after every operation links must be mutually consistent, "
       "build_node_set must equal the reference reachable set and deliveries must equal the reference over the current edges (zip: every complete tuple by the edit or the next arrival; gc'ed branch silent; sink alive until destroyed).",
       "fixed node pool; parallel edges excluded by construction; operations documented to raise (removing the emit_on stream) are not generated",
       "DESIGN.md §3 C15")
 
 claim("C16", "seqbfs",
       "explicit-state BFS over (input, which user-function invocation fails) sequences on the real pipelines, reference interpreter with abort semantics as oracle",
-      "Programs over every node type that calls a user function (map, starmap, filter, accumulate x3, unique(key), partition(key), partition_unique(key), sink) in chain, fan-out (both orders), union and join shapes; "
+      "Programs over every node type that calls a user function (map, starmap, filter, remove, accumulate in all forms, unique(key), partition(key), partition_unique(key), sink, each also with extra arguments) in chain (incl. behind flatten), fan-out (both orders), union and join shapes; "
       "alphabet (entry, value, j) with j = which invocation of this emit raises; the injected exception object itself must reach the caller of emit (blocking emit through the real background loop when a node needs one), "
       "every later output must equal the reference run in which the failing node kept its state, and the failed element's counter must never reach zero.",
       "one failure per emit; depth 3 (4 thorough); for a failure carried by an awaitable (partition) sibling branches may or may not see the element - both are accepted, as the statement only constrains the failing node",
@@ -140,16 +140,17 @@ claim("C19", "config",
       "exhaustive enumeration of construction configurations against a unification reference for (loop, mode) per connected component",
       "Full product of first node (plain Stream + all 12 Source subclasses) x asynchronous {None,True,False} x loop {none,current,other} x 0-2 fluent nodes (plain / each loop-requiring type, explicit arguments none / agreeing / conflicting) "
       "x joins (union, zip, combine_latest, zip_latest) with a second pipeline incl. explicit arguments on the join and a loop-requiring node added afterwards to the joined-in pipeline; "
-      "oracle: inherited (loop, mode), ValueError exactly on explicit conflicts, asynchronous=True => IOLoop.current() and no thread, blocking loop-needing node => the one shared background loop (one thread), no component with two loops or modes.",
-      "event loops are inert stand-ins behind the streamz.core.IOLoop / threading seams (binding and thread creation observed, callbacks not run); mode compared by truthiness; joining two already conflicting pipelines without an explicit contradicting request is not generated",
+      "also with a default Dask client in the process, sinks as nodes, and a run-time step (start the source / push one element into an asynchronous pipeline); "
+      "oracle: inherited (loop, mode), ValueError exactly on explicit conflicts, asynchronous=True => IOLoop.current() and no thread, blocking loop-needing node => the one shared background loop (one thread) or the Dask client's loop, no component with two loops or modes, every callback scheduled at construction or at run time lands on the component's loop; plus the batched Kafka source run on the virtual loop with the shared loop replaced by a reporting stand-in.",
+      "event loops are inert stand-ins behind the streamz.core.IOLoop / threading seams (binding, thread creation and where callbacks are scheduled are observed, callbacks not run); mode compared by truthiness; joining two already conflicting pipelines without an explicit contradicting request is not generated",
       "DESIGN.md §3 C19")
 
 claim("C06", "frames",
       "exhaustive enumeration of small tables x all batch splits (with empty batches) on the real streaming-dataframe pipeline, pandas on the prefix as reference model",
       "Series / DataFrame sum, count, size, mean, expanding var/std (the public route to a running variance), value_counts, groupby(column | streaming series) sum/count/size/mean/var/std, and elementwise trees of depth <= 2 "
-      "(+scalar, *column, comparison, [mask], [[cols]], assign) per batch and under sum / groupby.sum (batches emptied by an upstream filter): every table of up to R rows over values {1,2,NaN} x keys {a,b}, every composition into "
+      "(+scalar, *column, comparison, [mask], [[cols]], assign) per batch and under sum / groupby.sum (batches emptied by an upstream filter), plus a second catalogue (the rest of the operator table incl. reflected and logical operators, item assignment, frames assembled from expressions, query / set_index / index, aggregations chained onto stateful results, expressions mixing the batch with a running aggregate, two pipelines alive at once, ddof 0/2, index-like groupers): every table of up to R rows over values {1,2,NaN} x keys {a,b}, every composition into "
       "consecutive batches with up to E empty batches at every position, each on a fresh pipeline, compared after every batch with pandas on concat(batches[:k]) whenever that prefix has a row.",
-      "quick R<=3, E<=1; thorough R<=4 E<=2 (+R=5 for Series reductions; groupby families bounded per family, recorded in the evidence); numeric tolerance 1e-9, NaN == NaN, dtype-only differences ignored",
+      "quick R<=3, E<=1; thorough R<=4 E<=2 (+R=5 for Series reductions; groupby families bounded per family, recorded in the evidence); value families {1,2,NaN}, {-1,1,2}, {1,2,4}; numeric tolerance 1e-9, NaN == NaN, dtype-only differences ignored",
       "DESIGN.md §3 C06")
 
 claim("C07", "frames",
@@ -162,7 +163,7 @@ claim("C07", "frames",
 
 claim("C11", "frames",
       "exhaustive enumeration of tables x splits for rolling (rows and time), cumulative, expanding and ewm aggregations, pandas in one pass as reference model",
-      "rolling(w in 1..3).{sum,mean,min,max,count,std,var,median}, rolling('1ns'|'2ns').{sum,count,max}, cumsum/cumprod/cummin/cummax, expanding().{sum,mean,count,var,std}, ewm(com=1 | alpha=.5).mean(): "
+      "rolling(w in 1..3).{sum,mean,min,max,count,std,var,median}, rolling('1ns'|'2ns').{sum,count,max}, cumsum/cumprod/cummin/cummax, expanding().{sum,mean,count,var,std}, ewm(com | span | halflife | alpha, symmetric and asymmetric values, alpha=1).mean(), the column picked before or after the wrapper, positional arguments, quantile / aggregate, scans chained onto scans: "
       "concat(emitted) (rolling, cumulative) resp. the value emitted per batch (expanding, ewm) must equal the one-pass pandas result for every split incl. empty batches and batches shorter than the window.",
       "quick R<=3 E<=1, thorough R<=4 E<=2 (+R=5 E=1); known findings: ewm with NaN rows, expanding().sum() on an all-NaN prefix",
       "DESIGN.md §3 C11")
@@ -170,7 +171,7 @@ claim("C11", "frames",
 claim("C12", "frames",
       "exhaustive enumeration of batch sequences x every cut point: uninterrupted run vs pipeline resumed from the captured state (twice, after the original has moved on)",
       "For every batch sequence and every cut k the states exposed by the uninterrupted run (with_state=True / emitted value for reductions / (sum,count) for mean) are captured while the original pipeline goes on; a fresh pipeline seeded with start=<state k> "
-      "must reproduce the uninterrupted suffix and the same subsequent states, also on a second resume from the same state object (aliasing of captured state is thereby visible).",
+      "must reproduce the uninterrupted suffix and the same subsequent states, also on a second resume from the same state object (aliasing of captured state is thereby visible); the same with resumed pipelines that are given start=<state> alone.",
       "aggregations without start=/with_state support (GroupBy.size/var/std, Frame.size, unwindowed value_counts, cumulative) are not covered and listed in the evidence notes; quick R<=3, thorough R<=4",
       "DESIGN.md §3 C12")
 
@@ -196,7 +197,7 @@ def main():
         ))
     engines = []
     for name, (path, kind) in ENGINES.items():
-        serves = [p for p in ALL if p in CHECKS and CHECKS[p][0] == name]
+        serves = [p for p in ALL if p in CHECKS and name in CHECKS[p][0].split("+")]
         if serves:
             engines.append(dict(name=name, path=path, serves_properties=serves, kind_free_text=kind))
     na = [dict(property_id=p, reason=NOT_YET.get(p, "check not built yet in this revision of /verif (planned, see DESIGN.md §3); not claimed until it runs"))
